@@ -46,7 +46,27 @@ def build(ctx):
         import numpy as np
         f = real(F1)
         rf = lambda x: np.tanh(np.sqrt(x))
-        return f(rf, pt["t"], pt["M"], pt["tau"]), pt["M"] * rf(pt["t"] / pt["tau"])
+        a, b = f(rf, pt["t"], pt["M"], pt["tau"]), pt["M"] * rf(pt["t"] / pt["tau"])
+        if not close(a, b, 1e-12):
+            return a, b
+        # "any recovery curve": also callables that are OBJECTS with data attributes - scipy interpolators over tables that do not
+        # start at 0 / that extrapolate (the law is M * rf(t / tau) whatever rf is), and a callable class instance
+        from scipy.interpolate import interp1d
+        xs = np.geomspace(0.05, 40.0, 60)
+        curves = [interp1d(xs, np.tanh(np.sqrt(xs)), bounds_error=False, fill_value=(0.0, float(np.tanh(np.sqrt(xs[-1]))))), interp1d(xs, np.tanh(np.sqrt(xs)), fill_value="extrapolate")]
+
+        class Curve:
+            x = np.array([1.0, 2.0])   # an attribute that happens to be called x
+
+            def __call__(self, q):
+                return np.tanh(np.sqrt(q))
+        curves.append(Curve())
+        for rfc in curves:
+            for tq in (pt["t"], 0.0, 0.01 * pt["tau"], 100.0 * pt["tau"], np.array([0.0, 0.02 * pt["tau"], pt["t"], 60.0 * pt["tau"]])):
+                a, b = f(rfc, tq, pt["M"], pt["tau"]), pt["M"] * rfc(np.asarray(tq) / pt["tau"])
+                if not close(np.asarray(a, dtype=float), np.asarray(b, dtype=float), 1e-12):
+                    return np.asarray(a, dtype=float), np.asarray(b, dtype=float)
+        return a, b
 
     obs.append(cas_ob(ctx, "forecast.law", "_forecast_cum_onephase(rf, t, M, tau) == M * rf(t / tau)", law, BOX, [F1], law_real, tol=1e-12))
 
